@@ -12,6 +12,7 @@
 //   union  - 2..5 sketches of unequal lgK (empty / sparse / hybrid / pinned / sliding), several permutations, a fresh
 //            union per permutation, lvalue and rvalue update, results observed, updated further and serialized
 //   big    - larger K, updates logged in batches (UpdateMany) between boundaries
+//   empty  - DIRECTED: EMPTY and ONE-item sketches / union results serialized, restored through both readers, continued in lock-step
 //   delete / long - the surprising-value table under stress in SLIDING flavor (see seg_delete / seg_long)
 // Serialization (bytes and stream, header sizes, custom seed) and copies happen at random points; the restored sketch
 // and its original then receive the same further updates (events on restored objects carry "restored":true).
@@ -139,6 +140,9 @@ static std::string proj(const cpc_sketch& s, bool cells = true) {
   std::vector<double> lb, ub;
   for (int k = 1; k <= 3; k++) { lb.push_back(s.get_lower_bound(k)); ub.push_back(s.get_upper_bound(k)); }
   r.dl("lb", lb).dl("ub", ub);
+  bool fin = std::isfinite(s.get_estimate());
+  for (int k = 0; k < 3; k++) fin = fin && std::isfinite(lb[k]) && std::isfinite(ub[k]);
+  r.b("fin", fin);
   if (cells && s.get_lg_k() <= CELLS_MAX_LGK) {
     auto m = s.verif_bit_matrix();
     std::vector<int> cs;
@@ -195,7 +199,7 @@ static void one_update(World& w, int i, const Item& it, int twin) {
   Ev e(counted ? "Update" : "UpdateIgnored");
   e.i("id", i).str("type", TYPES[it.type]);
   if (counted) e.i("row", row).i("col", col);
-  e.i("C", s.get_num_coupons()).d("est", s.get_estimate());
+  e.i("C", s.get_num_coupons()).d("est", s.get_estimate()).b("fin", std::isfinite(s.get_estimate()));
   if (w.restored[i]) e.b("restored", true);
   if (twin >= 0) e.i("twin", twin);
   e.emit(); w.budget--;
@@ -228,6 +232,7 @@ static void upd_many(World& w, int i, const std::vector<Item>& items) {
       do_update(s, it);
     }
     Ev e("UpdateMany"); e.i("id", ids[q]).il("rows", rows).il("cols", cols).i("C", s.get_num_coupons()).d("est", s.get_estimate());
+    e.b("fin", std::isfinite(s.get_estimate()));
     if (w.restored[ids[q]]) e.b("restored", true);
     if (q == 1) e.i("twin", ids[0]);
     e.emit(); w.budget--;
@@ -258,10 +263,10 @@ static void ev_ser(World& w, int i, int b) {
   e.raw("r", proj(s)).emit(); w.budget--;
 }
 
-static void ev_deser(World& w, int b, int j) {
+static void ev_deser(World& w, int b, int j, int path = -1) {   // path: 0 bytes, 1 stream, -1 random
   if (!w.blive[b]) return;
   clear_slot(w, j);
-  bool stream = w.g.chance(50);
+  bool stream = path < 0 ? w.g.chance(50) : path == 1;
   long long consumed;
   if (!stream) {
     w.sk[j].reset(new cpc_sketch(cpc_sketch::deserialize(w.blob[b].data(), w.blob[b].size(), w.seed)));
@@ -552,6 +557,100 @@ static void seg_long(World& w, int lgk, long n_updates) {
   ev_obs(w, 0);
 }
 
+// ---------------------------------------------------------------------------------------------------------
+// DIRECTED segment, first in every file (C09 "restore, then continue"): at the EMPTY state and at exactly ONE item (CPC has
+// no reset()), for a fresh sketch and for a union result, serialize (bytes with a header, and stream), restore through BOTH
+// reader paths, then continue the original and both restored copies with the same updates in lock-step (estimates must stay
+// bit-identical and finite), observe all three, and use original and restored as union operands (lvalue and rvalue).
+// ---------------------------------------------------------------------------------------------------------
+static void lockstep3(World& w, int a, int b, int c, long n, bool aimed) {
+  long K = 1L << w.sk[a]->get_lg_k();
+  for (long q = 0; q < n && w.budget > 0; q++) {
+    Item it = draw_wide(w.g);
+    if (aimed && w.sk[a]->get_lg_k() == w.pool_lgk && w.g.chance(70)) {
+      Item pit; if (pool_item(w, (int)w.g.below(K), (int)w.g.below(std::min(w.pool_cols, 6)), pit)) it = pit;
+    }
+    if (q == 3) { it.type = 10; it.sv = ""; }                     // an ignored update on all three
+    one_update(w, a, it, -1);
+    one_update(w, b, it, a);
+    one_update(w, c, it, a);
+    if (q == 0 || q == 1 || q == n / 2) { ev_obs(w, a); ev_obs(w, b); ev_obs(w, c); }
+  }
+  ev_obs(w, a); ev_obs(w, b); ev_obs(w, c);
+}
+
+static void union_of(World& w, int u, int ulgk, std::initializer_list<int> srcs, int rvalue_src, int dst) {
+  w.un[u].reset(new cpc_union((uint8_t)ulgk, w.seed));
+  Ev("UNew").i("u", u).i("lgk", ulgk).emit(); w.budget--;
+  for (int i : srcs) {
+    if (i == rvalue_src) {
+      int tmp = NS - 5;
+      ev_copy(w, i, tmp);
+      w.un[u]->update(std::move(*w.sk[tmp]));
+      w.sk[tmp].reset(); clear_slot(w, tmp);
+      Ev("UUpdate").i("u", u).i("src", tmp).b("rvalue", true).emit(); w.budget--;
+    } else {
+      w.un[u]->update(*w.sk[i]);
+      Ev("UUpdate").i("u", u).i("src", i).b("rvalue", false).emit(); w.budget--;
+    }
+  }
+  clear_slot(w, dst);
+  w.sk[dst].reset(new cpc_sketch(w.un[u]->get_result()));
+  Ev("UResult").i("u", u).i("dst", dst).raw("r", proj(*w.sk[dst])).emit(); w.budget--;
+}
+
+// sketch in slot 0 is in the state of interest: image -> both readers -> lock-step -> union operands
+static void restore_and_continue(World& w, long nupd, bool aimed) {
+  const int A = 0, RB = 10, RS = 11, X = 1;      // original, restored from bytes, restored from stream, a non-empty operand
+  ev_obs(w, A);
+  ev_ser(w, A, 0);
+  ev_deser(w, 0, RB, 0);
+  ev_ser(w, A, 1);                                // a second image (another header size), read through the stream path
+  ev_deser(w, 1, RS, 1);
+  // the restored copies as union operands BEFORE any further update (with a non-empty partner of a larger lg_k)
+  int lgk = w.sk[A]->get_lg_k();
+  union_of(w, 0, std::min(12, lgk + 2), {RB, X}, -1, 5);
+  union_of(w, 0, std::min(12, lgk + 2), {X, RS}, RS, 5);
+  union_of(w, 0, std::min(12, lgk + 2), {A, X}, -1, 5);
+  lockstep3(w, A, RB, RS, nupd, aimed);
+  // and after: original and restored give the same union result (both are checked against the contract's UnionDef)
+  union_of(w, 0, lgk, {A, X}, A, 5);
+  union_of(w, 1, lgk, {RB, X}, -1, 6);
+  union_of(w, 2, std::max(4, lgk - 1), {X, RS}, RS, 6);
+  // a second generation: image of the restored copy after the updates
+  ev_ser(w, RB, 2); ev_deser(w, 2, 12, (int)w.g.below(2));
+  ev_obs(w, 12);
+}
+
+static void seg_empty(World& w, int maxlgk) {
+  int lgks[2] = {(int)w.g.range(4, 6), (int)w.g.range(7, std::min(maxlgk, 11))};
+  for (int round = 0; round < 4 && w.budget > 0; round++) {
+    int lgk = lgks[round & 1];
+    bool one = round >= 2;                         // rounds 0,1: EMPTY; rounds 2,3: exactly ONE item
+    build_pool(w, std::min(lgk, 6));
+    // a non-empty operand of a larger lg_k
+    ev_new(w, 1, std::min(12, lgk + 1));
+    for (int q = 0; q < 6; q++) one_update(w, 1, draw_wide(w.g), -1);
+    ev_new(w, 0, lgk);
+    if (one) one_update(w, 0, draw_wide(w.g), -1);
+    restore_and_continue(w, lgk <= 6 ? 40 : 25, lgk <= 6);
+    // the same for a UNION RESULT in that state: untouched union / union of empty inputs (EMPTY), one one-coupon input (ONE)
+    ev_new(w, 2, lgk + (int)w.g.below(2));
+    if (one) one_update(w, 2, draw_wide(w.g), -1);
+    ev_new(w, 3, std::max(4, lgk - 1));            // an empty input of a smaller lg_k
+    if (!one && (round & 1)) {
+      w.un[0].reset(new cpc_union((uint8_t)lgk, w.seed));
+      Ev("UNew").i("u", 0).i("lgk", lgk).emit(); w.budget--;
+      clear_slot(w, 0);
+      w.sk[0].reset(new cpc_sketch(w.un[0]->get_result()));
+      Ev("UResult").i("u", 0).i("dst", 0).raw("r", proj(*w.sk[0])).emit(); w.budget--;
+    } else {
+      union_of(w, 0, lgk, {3, 2}, -1, 0);
+    }
+    restore_and_continue(w, 25, false);
+  }
+}
+
 static void seg_big(World& w, int lgk, int shifts) {
   long K = 1L << lgk;
   ev_new(w, 0, lgk);
@@ -703,6 +802,7 @@ int main(int argc, char** argv) {
       case 's': { int lgk = (int)w.g.range(4, std::min(maxlgk, 7)); seg_sweep(w, lgk, (int)w.g.range(1, lgk <= 5 ? 5 : 3)); break; }
       case 'a': { int lgk = (int)w.g.range(4, 6); seg_aimed(w, lgk, (int)w.g.range(3, lgk == 4 ? 12 : (lgk == 5 ? 10 : 8))); break; }
       case 'u': seg_union(w, maxlgk); break;
+      case 'e': seg_empty(w, maxlgk); break;
       case 'd': seg_delete(w, (int)w.g.range(4, std::min(maxlgk, 8))); break;
       case 'r': { int lgk = (int)w.g.range(4, std::min(maxlgk, 8)); seg_long(w, lgk, (long)w.g.range(20000, 40000)); break; }
       case 'b': { int lgk = (int)w.g.range(std::min(8, maxlgk), maxlgk); seg_big(w, lgk, (int)w.g.range(0, 3)); break; }
